@@ -237,3 +237,48 @@ def scope_trace(events):
         return None
     out.append({"ev": "scope_done", "path": "", "allow": False, "ignore": False, "in_diff": False, "parsed": sorted(set(parsed))})
     return out
+
+
+def system_trace(events, res, args, has_diff):
+    """Normalised TraceSystem input: stage events of one complete run + the exit event."""
+    D = {"ev": "", "n": 0, "has_error": False, "status": 0, "outcome": "", "list": False, "reported": False, "has_diff": False}
+    out = []
+    last = None
+    pending_parse = False
+    for e in events:
+        ev = e["ev"]
+        if ev in ("dl", "hunk_end", "changes"):
+            stage = "diff"
+        elif ev == "parse_file":
+            if not e.get("grammar", True):
+                continue        # no grammar: skipped silently, nothing is parsed
+            if pending_parse:
+                out.append(dict(D, ev="parsed_ok"))
+            out.append(dict(D, ev="parse"))
+            pending_parse = True
+            continue
+        elif ev == "scope_done":
+            if pending_parse:
+                out.append(dict(D, ev="parsed_ok"))
+                pending_parse = False
+            stage = "scoped"
+        elif ev == "detect_start":
+            stage = "detect"
+        elif ev == "detect_done":
+            stage = "detected"
+        elif ev == "run_start":
+            stage = "run"
+        elif ev == "report":
+            out.append(dict(D, ev="report", n=sum(len(v) for v in e["files"].values()), has_error=e["has_error"]))
+            continue
+        else:
+            continue
+        if stage == "diff" and last == "diff":
+            continue
+        out.append(dict(D, ev=stage))
+        last = stage
+    is_list = "list" in (args or [])
+    outcome = {"ok": "ok", "error": "error", "reject": "reject"}.get(res["outcome"], res["outcome"])
+    out.append(dict(D, ev="exit", status=res["exit"], outcome=outcome, list=is_list, reported=bool(res.get("report")),
+                    has_diff=bool(has_diff)))
+    return out
